@@ -40,6 +40,19 @@ Theorem C14_empty_operand :
 Proof. exact C14_empty_operand_lemma. Qed.
 Print Assumptions C14_empty_operand.
 
+(* the message of a syntax error states the mnemonic, the line number and the empty operand's position *)
+From PS Require Import C14_msg.
+Theorem C14_message :
+  forall e, match e with
+            | NoOperands line ins =>
+                substrb ins (code_err_msg e) = true /\ substrb (nat_to_str line) (code_err_msg e) = true
+            | EmptyOperand k line ins =>
+                substrb ins (code_err_msg e) = true /\ substrb (nat_to_str line) (code_err_msg e) = true
+                /\ substrb ("Operand " ++ nat_to_str k ++ " empty")%string (code_err_msg e) = true
+            end.
+Proof. exact C14_message_lemma. Qed.
+Print Assumptions C14_message.
+
 Example C14_nonvacuous :
   read_program ["  ADD R1 ,r2,  R1, r3" ; "" ; "sub" ++ String (ascii_of_nat 9) "R2,R1"]%string
   = ProgOk [ {| pi_srcs := ["R1"; "r2"; "r3"]; pi_dst := "R1"; pi_name := "ADD"; pi_line := 1 |};
